@@ -30,6 +30,10 @@ pub struct GenCfg {
     pub max_coef_sum: u32,
     /// Quantizer style: 0 small (1..6), 1 any 1..31, 2 extremes.
     pub quant_style: u8,
+    /// The decoder has the scalability mode negotiated (option bit 2): valid
+    /// PLUSPTYPE headers then carry ELNUM/RLNUM.
+    #[serde(default)]
+    pub scal: bool,
 }
 
 impl GenCfg {
@@ -54,7 +58,22 @@ impl GenCfg {
             pei16: *rng.pick(&[0u8, 0, 4, 12]),
             max_coef_sum: 0,
             quant_style: rng.below(3) as u8,
+            scal: false,
         }
+    }
+
+    /// Configuration for a decoder created with option bits `opts`: Sorenson
+    /// flavours for Sorenson decoders, standard ones otherwise.  With the
+    /// scalability mode negotiated only PLUSPTYPE headers are generated (ELNUM
+    /// has no place in a plain-PTYPE header).
+    pub fn for_opts(rng: &mut Rng, opts: u8) -> GenCfg {
+        let sorenson = opts & 1 == 1;
+        let mut c = GenCfg::draw(rng, if sorenson { &[0, 1, 2] } else { &[4, 4, 4, 3] });
+        c.scal = opts & 2 != 0;
+        if c.scal && c.flavour == 3 {
+            c.flavour = 4;
+        }
+        c
     }
 
     pub fn is_sorenson(&self) -> bool {
@@ -103,7 +122,8 @@ pub fn flavour_for(rng: &mut Rng, cfg: &GenCfg, w: u16, h: u16) -> (Flavour, u16
         _ => {
             let w4 = ((w + 3) / 4 * 4).clamp(4, 2048);
             let h4 = ((h + 3) / 4 * 4).clamp(4, 1020);
-            (Flavour::StdPlus { umv_unlimited: false }, w4, h4)
+            let layers = if cfg.scal { Some((rng.below(16) as u8, rng.below(16) as u8)) } else { None };
+            (Flavour::StdPlus { umv_unlimited: false, layers }, w4, h4)
         }
     }
 }
